@@ -9,6 +9,7 @@ import (
 func init() {
 	gens["C03"] = genC03
 	execs["access3"] = execAccess3
+	execs["access3seq"] = execAccess3Seq
 }
 
 var c03Exp = []string{"none", "far-past", "now-1", "now", "now+1", "far"}
@@ -69,6 +70,7 @@ func genC03(cfg Config, emit Emit) error {
 			}
 		}
 	}
+	genC03Seq(cfg, emit)
 	return nil
 }
 
@@ -101,6 +103,81 @@ func execAccess3(args []string) (res Result) {
 			continue // the second ticked while validating: the sample is discarded
 		}
 		r.Extra = map[string]any{"abstract_args": abstract, "validated_at": T}
+		return r
+	}
+	return Result{Impl: "clock-unstable"}
+}
+
+// genC03Seq: the same tokens are validated twice by the same process, before and after a boundary of
+// one token's window passes: valid then expired (what a cache of accepted tokens gets wrong), too
+// early then valid (what a cache of refusals gets wrong). The second validation is the observed one.
+func genC03Seq(cfg Config, emit Emit) {
+	n := 16
+	if cfg.Thorough() {
+		n = 160
+	}
+	shapes := [][2]string{{"now+1", "unset"}, {"now+1", "far-past"}, {"far", "now+1"}, {"none", "now+1"}}
+	o := genOpts{maxDepth: 4, sessions: true, sessionPct: 50, caveatPct: 1}
+	for i := 0; i < n; i++ {
+		var class string
+		w := genWorld(cfg.Rng, 0, o, &class)
+		normalize(w)
+		for i := range w.Tokens {
+			t := &w.Tokens[i]
+			if t.Exp != nil {
+				far := farFuture + cfg.Rng.Intn(1000)
+				t.ExpRel, t.Exp = &far, nil
+			}
+		}
+		pos := cfg.Rng.Intn(len(w.Tokens))
+		sh := shapes[i%len(shapes)]
+		t := &w.Tokens[pos]
+		t.Exp, t.ExpRel = nil, relOf(sh[0])
+		t.NbfRel = relOf(sh[1])
+		emit("access3seq", []string{"C03", mustJSON(w)}, fmt.Sprintf("twice/exp=%s/nbf=%s", sh[0], sh[1]), true)
+	}
+}
+
+func stableNow() time.Time {
+	now := time.Now()
+	if now.Nanosecond() > 600_000_000 {
+		time.Sleep(time.Duration(1_000_000_000-now.Nanosecond()+5_000_000) * time.Nanosecond)
+		now = time.Now()
+	}
+	return now
+}
+
+func execAccess3Seq(args []string) (res Result) {
+	abstract := append([]string(nil), args...)
+	for attempt := 0; attempt < 4; attempt++ {
+		T := int(stableNow().Unix())
+		var w AWorld
+		if err := json.Unmarshal([]byte(args[1]), &w); err != nil {
+			return Result{Impl: "bad-world:" + err.Error()}
+		}
+		w.Now = T
+		for i := range w.Tokens {
+			t := &w.Tokens[i]
+			if t.ExpRel != nil {
+				e := T + *t.ExpRel
+				t.Exp, t.ExpRel = &e, nil
+			}
+			if t.NbfRel != nil {
+				t.Nbf, t.NbfRel = T+*t.NbfRel, nil
+			}
+		}
+		first := execAccess([]string{args[0], mustJSON(&w)})
+		// let the boundary pass
+		for int(time.Now().Unix()) < T+2 {
+			time.Sleep(50 * time.Millisecond)
+		}
+		T2 := int(stableNow().Unix())
+		w.Now = T2
+		r := execAccess([]string{args[0], mustJSON(&w)})
+		if int(time.Now().Unix()) != T2 {
+			continue
+		}
+		r.Extra = map[string]any{"abstract_args": abstract, "first_validated_at": T, "first": first.Impl, "validated_at": T2}
 		return r
 	}
 	return Result{Impl: "clock-unstable"}
